@@ -211,6 +211,30 @@ fn c20_enumerated(cx: &mut Ctx) {
             }
         }
     }
+    // (4b) UTF-8 mode with G1 already active (selected through the API, or in 8-bit mode before the
+    // switch to UTF-8): SI / SO / designators must still be ignored, G1 keeps translating
+    for route in 0..2 {
+        for (code, table) in CODES {
+            idx += 1;
+            if !cx.mine(idx) || !cx.begin_group(&format!("utf8 with G1 active {} route {}", code, route)) {
+                continue;
+            }
+            let chars = table.chars().unwrap();
+            let probes: Vec<(Op, String, String)> = [0x21u32, 0x5f, 0x61, 0x71, 0x7e]
+                .iter()
+                .map(|b| (Op::Feed(char::from_u32(*b).unwrap().to_string()), shown(chars[*b as usize]), format!("g1-active utf8 char=0x{:02x}", b)))
+                .collect();
+            for ctl in ["\x0f", "\x0e", "\x1b(0", "\x1b)B", "\x0f\x0f"] {
+                let prefix = if route == 0 {
+                    vec![Op::Api(Call::DefineCharset(code.into(), ")".into())), Op::Api(Call::ShiftOut), Op::Feed(ctl.to_string())]
+                } else {
+                    vec![Op::Charset("@".into()), Op::Feed(format!("\x1b){}\x0e", code)), Op::Charset("G".into()), Op::Feed(ctl.to_string())]
+                };
+                probe_cells(cx, PK::Chars, &prefix, &probes, "utf8-not-ignored", &format!("g1-active|{}|route{}", code, route), "Parser UTF-8, G1 active");
+                probe_cells(cx, PK::Bytes, &prefix, &probes, "utf8-not-ignored", &format!("g1-active|{}|route{}|bytes", code, route), "ByteParser UTF-8, G1 active");
+            }
+        }
+    }
     // (5) save / restore of the charset state
     idx += 1;
     if cx.mine(idx) && cx.begin_group("save-restore") {
